@@ -264,6 +264,17 @@ fn transition_exemptions_bounded() {
                 }
                 x *= g;
             }
+            // the divisor the prover / verifier actually use is the one TransitionConstraints::new builds from the
+            // context: it must be the divisor of exactly the context's exemption count
+            let options = ProofOptions::new(32, 16, 0, FieldExtension::None, 4, 31);
+            let mk = || AirContext::<BaseElement>::new(TraceInfo::new(2, n), vec![TransitionConstraintDegree::new(1)], 1, options.clone()).set_num_transition_exemptions(k);
+            if let Ok(ctx) = catch_unwind(AssertUnwindSafe(mk)) {
+                cases += 1;
+                let tc = winter_air::TransitionConstraints::<BaseElement>::new(&ctx, &[BaseElement::ONE]);
+                if tc.divisor() != &d {
+                    fail(format!("TransitionConstraints::new for trace length {n} with {k} exemptions uses the divisor {} instead of {}", tc.divisor(), d));
+                }
+            }
         }
     }
     println!("NB-RESULT name=transition_exemptions_bounded cases={cases}");
